@@ -30,6 +30,7 @@ DEFAULT = {
     "p_fiat": 0.0,
     "p_clock_need": 0.25,
     "p_done_need": 0.0,
+    "p_done_main": 0.0,
     "p_recs_all_ctx": 1.0,
     "p_period": 0.0,
     "ticks": (8, 20),
@@ -210,9 +211,15 @@ def gen_framer(rng, f, name, sched, auxnames, others, slaves, is_aux=False, cond
             bctx = rng.choice([None, "enter", "exit", "recur"])
             nb = 2 if rng.random() < 0.3 else 1       # sometimes two bids in a row: the last one wins
             for _ in range(nb):
+                at = None
+                if f["p_bid_period"] and ctl in ("start", "run", "ready") and rng.random() < f["p_bid_period"]:
+                    at = rng.choice(["0", "0.125", "0.25", "0.375", "0.5"])     # `bid start x at 0.25`: the target's new period
                 if f["mark_bids"]:
-                    st.append(P.rec("bid|%s|%s|%s" % (ctl, who, name), bctx or "enter"))
-                st.append({"v": "bid", "ctl": ctl, "who": [who], "ctx": bctx})
+                    st.append(P.rec("bid|%s|%s|%s" % (ctl, who, name) + ("|%s" % at if at else ""), bctx or "enter"))
+                b = {"v": "bid", "ctl": ctl, "who": [who], "ctx": bctx}
+                if at:
+                    b["at"] = at
+                st.append(b)
                 ctl = rng.choice(["stop", "start", "run", "abort", "ready"])
         if slaves and rng.random() < f["p_fiat"]:
             st.append({"v": rng.choice(["ready", "start", "run", "stop", "abort"]), "who": rng.choice(slaves), "ctx": None})
@@ -224,6 +231,11 @@ def gen_framer(rng, f, name, sched, auxnames, others, slaves, is_aux=False, cond
             fr = rng.choice(frames)
             fr["stmts"].insert(len([s for s in fr["stmts"] if s["v"] in ("let",)]),
                                {"v": "done", "who": ["me"], "ctx": rng.choice([None, "recur", "enter"])})
+    elif f.get("p_done_main") and rng.random() < f["p_done_main"]:
+        # a scheduled framer may report completion with `done me` too: it keeps running with its frames entered
+        fr = rng.choice(frames)
+        fr["stmts"].insert(len([s for s in fr["stmts"] if s["v"] in ("let",)]),
+                           {"v": "done", "who": ["me"], "ctx": rng.choice([None, "recur", "enter"])})
     first = rng.choice(names) if rng.random() < f["p_first"] else None
     period = None
     if f["p_period"] and rng.random() < f["p_period"]:
